@@ -51,7 +51,7 @@ type Pool struct {
 
 // Get takes an item.
 func (p *Pool) Get() any {
-	if vmc.S == nil {
+	if !vmc.InExecution() {
 		if x := p.real.Get(); x != nil {
 			return x
 		}
@@ -75,7 +75,7 @@ func (p *Pool) Get() any {
 
 // Put returns an item.
 func (p *Pool) Put(x any) {
-	if vmc.S == nil {
+	if !vmc.InExecution() {
 		p.real.Put(x)
 		return
 	}
